@@ -3,6 +3,7 @@
 package mem
 
 import (
+	"container/list"
 	"strconv"
 
 	"github.com/inbucket/inbucket/v3/pkg/extension"
@@ -56,6 +57,7 @@ func ghost_closed(c chan *msgDone) bool { panic("ghost") }
 //@   serves C07
 //@ func (*Message).Size
 //@   ensures ret == int64(len(m.source))
+//@   ensures[assumedWeight] ret == ghost_weight(m)
 //@   serves C07 C02
 //@ func (*Message).Seen
 //@   ensures ret == m.seen
@@ -68,6 +70,12 @@ func ghost_closed(c chan *msgDone) bool { panic("ghost") }
 //@   modifies mapof(s.boxes)
 //@   ensures[xor] (m != nil) != (err != nil)
 //@   ensures[notExist] id != "latest" && !(old(vcHas(s.boxes, mailbox)) && old(vcHas(s.boxes[mailbox].messages, id))) ==> err == storage.ErrNotExist
+//@   ensures[found] id != "latest" && old(vcHas(s.boxes, mailbox)) && old(vcHas(s.boxes[mailbox].messages, id)) ==> err == nil && m == storage.Message(s.boxes[mailbox].messages[id])
+//@   ensures[latestEmpty] id == "latest" && !(old(vcHas(s.boxes, mailbox)) && old(len(s.boxes[mailbox].messages)) > 0) ==> err == storage.ErrNotExist
+//@   ensures[latestLive] id == "latest" && old(vcHas(s.boxes, mailbox)) && old(len(s.boxes[mailbox].messages)) > 0 ==> err == nil && spec_inBox(s.boxes[mailbox], m)
+//@   ensures[latestIsNewest] id == "latest" && old(vcHas(s.boxes, mailbox)) && old(len(s.boxes[mailbox].messages)) > 0 ==>
+//@      spec_newest(s.boxes[mailbox], m.(*Message))
+//@   ensures[untouched] forall n string :: { vcHas(s.boxes, n) } old(vcHas(s.boxes, n)) ==> vcHas(s.boxes, n) && s.boxes[n] == old(s.boxes[n])
 //@   ensures spec_storeOK(s)
 //@   serves C07 C14
 
@@ -75,10 +83,15 @@ func ghost_closed(c chan *msgDone) bool { panic("ghost") }
 //@ pred spec_inBox(mb *mbox, v storage.Message) bool = v != nil && v.(*Message) != nil &&
 //@     vcHas(mb.messages, v.(*Message).id) && mb.messages[v.(*Message).id] == v.(*Message)
 
+//@ pred spec_covers(mb *mbox, ms []storage.Message) bool = forall k string :: { vcHas(mb.messages, k) } vcHas(mb.messages, k) ==>
+//@     exists i int :: { ms[i] } 0 <= i && i < len(ms) && ms[i] == storage.Message(mb.messages[k])
+//@ pred spec_newest(mb *mbox, m *Message) bool = forall k string :: { vcHas(mb.messages, k) } vcHas(mb.messages, k) ==> mb.messages[k].index <= m.index
+
 //@ func (*Store).GetMessages$1
 //@   inline
 //@   loop 1: invariant 0 <= ridx && len(ms) == ridx && vcFresh(ms) && mb != nil
 //@   loop 1: invariant forall i int :: { ms[i] } 0 <= i && i < len(ms) ==> spec_inBox(mb, ms[i])
+//@   loop 1: invariant forall k string :: { vcIn(rvisited, k) } vcIn(rvisited, k) ==> exists i int :: { ms[i] } 0 <= i && i < len(ms) && ms[i] == storage.Message(mb.messages[k])
 
 //@ func (*Store).GetMessages
 //@   requires spec_storeOK(s)
@@ -87,6 +100,8 @@ func ghost_closed(c chan *msgDone) bool { panic("ghost") }
 //@   ensures[inv] spec_storeOK(s)
 //@   ensures[complete] len(ms) == len(s.boxes[mailbox].messages)
 //@   ensures[members] forall i int :: { ms[i] } 0 <= i && i < len(ms) ==> spec_inBox(s.boxes[mailbox], ms[i])
+//@   ensures[createdEmpty] !old(vcHas(s.boxes, mailbox)) ==> len(s.boxes[mailbox].messages) == 0
+//@   ensures[covers] spec_covers(s.boxes[mailbox], ms)
 //@   ensures[oldestFirst] forall i int, j int :: { ms[i], ms[j] } 0 <= i && i < j && j < len(ms) ==> ms[i].(*Message).index <= ms[j].(*Message).index
 //@   ensures[untouched] forall n string :: { vcHas(s.boxes, n) } old(vcHas(s.boxes, n)) ==> vcHas(s.boxes, n) && s.boxes[n] == old(s.boxes[n])
 //@   serves C07
@@ -218,3 +233,55 @@ func ghost_emitted(eb *extension.AsyncEventBroker[event.MessageMetadata]) vcSeq[
 //@   loop 1: invariant 0 <= ridx && vcFresh(boxNames) && spec_storeOK(s)
 //@   loop 2: invariant 0 <= ridx && spec_storeOK(s)
 //@   serves C07 C12
+
+// ---------------------------------------------------------------------------------------------
+// C08: the size enforcer.  It keeps every delivered message in a list, oldest first, and the sum of
+// their sizes in curSize; after a delivery it evicts from the front of the list while the sum is
+// over the limit.
+//
+// ghost_weight(m) is the size of message m (ASSUMED to be constant over its life: Size's clause
+// assumedWeight; the source of a message is assigned once, before the message is shared).
+func ghost_llen(l *list.List) int                  { panic("ghost") }
+func ghost_lsum(l *list.List) int64                { panic("ghost") }
+func ghost_lmem(l *list.List) vcSet[*list.Element] { panic("ghost") }
+func ghost_lfront(l *list.List) *list.Element      { panic("ghost") }
+func ghost_lnonfront(l *list.List) int             { panic("ghost") }
+func ghost_lmark(l *list.List) int                 { panic("ghost") }
+func ghost_weight(v any) int64                     { panic("ghost") }
+func ghost_closedDone(c chan struct{}) bool        { panic("ghost") }
+
+// What is sent to the enforcer: a request with a message and an open completion channel (checked at
+// the sends in enforcerDeliver / enforcerRemove, assumed at the receives).
+//@ pred chaninv_incoming(md *msgDone) bool = md != nil && md.msg != nil && md.done != nil && !ghost_closedDone(md.done)
+//@ pred chaninv_remove(md *msgDone) bool = md != nil && md.msg != nil && md.done != nil && !ghost_closedDone(md.done)
+// ASSUMED (sequential rendez-vous model, D2): a message whose removal is reported was delivered to the
+// enforcer before, so it carries its list element.
+// enforcer before and is still in its list, under the element recorded in it.
+//@ pred chanassume_remove(md *msgDone, all *list.List) bool = md.msg.el != nil && vcIn(ghost_lmem(all), md.msg.el) && md.msg.el.Value == any(md.msg)
+
+// Every element of the enforcer's list holds a message.
+//@ pred spec_enfList(all *list.List) bool = all != nil && ghost_llen(all) >= 0 &&
+//@     forall x *list.Element :: { vcIn(ghost_lmem(all), x) } vcIn(ghost_lmem(all), x) ==> x != nil && spec_isMsg(x.Value)
+//@ func spec_isMsg
+//@   inline
+func spec_isMsg(v any) bool { m, ok := v.(*Message); return ok && m != nil }
+
+// ASSUMED in the eviction loop (sequential rendez-vous model, D2): the store and the enforcer agree on
+// which messages are live, i.e. every listed message is still in its mailbox.
+//@ pred spec_enfLive(s *Store, all *list.List) bool =
+//@     forall x *list.Element :: { vcIn(ghost_lmem(all), x) } vcIn(ghost_lmem(all), x) ==>
+//@        vcHas(s.boxes, x.Value.(*Message).mailbox) && vcHas(s.boxes[x.Value.(*Message).mailbox].messages, x.Value.(*Message).id)
+
+//@ func (*Store).maxSizeEnforcer
+//@   requires spec_storeOK(s) && maxSize >= 0 && s.incoming != nil && s.remove != nil
+//@   modifies *
+//@   loop 1: invariant[storeOK] spec_storeOK(s) && s.incoming != nil && s.remove != nil
+//@   loop 1: invariant[listOK] spec_enfList(all)
+//@   loop 1: invariant[accounting C08] curSize == ghost_lsum(all)
+//@   loop 1: invariant[withinLimit C08] curSize <= maxSize
+//@   loop 2: invariant[storeOK] spec_storeOK(s) && s.incoming != nil && s.remove != nil && md != nil && md.done != nil && !ghost_closedDone(md.done)
+//@   loop 2: invariant[listOK] spec_enfList(all)
+//@   loop 2: invariant[accounting C08] curSize == ghost_lsum(all)
+//@   loop 2: invariant[oldestFirst C08] ghost_lnonfront(all) == ghost_lmark(all)
+//@   loop 2: invariant[assumedLive] spec_enfLive(s, all)
+//@   serves C08
